@@ -26,7 +26,9 @@ IsEOF(env, i) == env.toks[i].t = "EOF"
 RECURSIVE NxtFrom(_, _)
 NxtFrom(env, i) == IF IsEOF(env, i) \/ ~env.toks[i].el THEN i ELSE NxtFrom(env, i + 1)
 
-Matches(tok, m) == (m.t = "" \/ m.t = tok.t) /\ (m.s = "" \/ tok.v = m.s \/ (m.ci /\ tok.t = "Ident" /\ tok.fv = m.fs))
+\* m.ci = set of token types compared by case folding (participle.CaseInsensitive)
+Matches(tok, m) == (m.t = "" \/ m.t = tok.t) /\ (m.s = "" \/ tok.v = m.s \/ (tok.t \in m.ci /\ tok.fv = m.fs))
+CiSet(g) == {g.citypes[i] : i \in 1..Len(g.citypes)}
 
 RECURSIVE PeekAnyFrom(_, _, _)
 PeekAnyFrom(env, i, m) ==
@@ -55,11 +57,17 @@ RECURSIVE JoinVals(_, _)
 JoinVals(vals, i) == IF i > Len(vals) THEN "" ELSE vals[i].s \o JoinVals(vals, i + 1)
 NumKinds == {"int8", "int16", "int32", "int64", "int", "uint8", "uint16", "uint32", "uint64", "uint", "float32", "float64"}
 IsNum(kind) == kind \in NumKinds
+\* slices of numeric kinds ("int8s", ...): every captured element is converted on its own
+NumSliceKinds == {k \o "s" : k \in NumKinds}
+IsNumSlice(kind) == kind \in NumSliceKinds
+ElemKind(kind) == CHOOSE k \in NumKinds : k \o "s" = kind
 \* conversion oracle: g.conv[kind][joined text] = "fail" or the canonical value (Conv.tla for integers, the logged
 \* strconv table for floats); a text missing from the table makes the case unjudgeable ("skip")
-ConvKnown(g, d) == ~IsNum(d.kind) \/ Len(d.vals) = 0 \/ JoinVals(d.vals, 1) \in DOMAIN g.conv[d.kind]
-ConvOK(g, d) == ~IsNum(d.kind) \/ Len(d.vals) = 0
-                \/ (LET t == JoinVals(d.vals, 1) IN t \in DOMAIN g.conv[d.kind] /\ g.conv[d.kind][t] # "fail")
+ConvKnown(g, d) == IF IsNumSlice(d.kind) THEN \A j \in 1..Len(d.vals) : ("s" \in DOMAIN d.vals[j]) => d.vals[j].s \in DOMAIN g.conv[ElemKind(d.kind)]
+                   ELSE ~IsNum(d.kind) \/ Len(d.vals) = 0 \/ JoinVals(d.vals, 1) \in DOMAIN g.conv[d.kind]
+ConvOK(g, d) == IF IsNumSlice(d.kind) THEN \A j \in 1..Len(d.vals) : ("s" \in DOMAIN d.vals[j]) => g.conv[ElemKind(d.kind)][d.vals[j].s] # "fail"
+                ELSE ~IsNum(d.kind) \/ Len(d.vals) = 0
+                     \/ (LET t == JoinVals(d.vals, 1) IN t \in DOMAIN g.conv[d.kind] /\ g.conv[d.kind][t] # "fail")
 \* setField over a list of deferred captures, stopping at the first conversion error (context.go Apply)
 RECURSIVE ApplySeq(_, _, _, _)
 ApplySeq(g, ds, i, lg) == IF i > Len(ds) THEN [log |-> lg, ok |-> TRUE]
@@ -83,7 +91,7 @@ Abandon(C, r) == IF DeadIn(C, r) THEN Append(r.log, [dead |-> TRUE]) ELSE r.log
 
 Eval(n, env, self, C) ==
   CASE n.op = "lit" \/ n.op = "ref" ->
-        LET m == IF n.op = "lit" THEN [s |-> n.s, t |-> n.t, ci |-> env.g.ci, fs |-> n.fs] ELSE [s |-> "", t |-> n.t, ci |-> FALSE, fs |-> ""]
+        LET m == IF n.op = "lit" THEN [s |-> n.s, t |-> n.t, ci |-> CiSet(env.g), fs |-> n.fs] ELSE [s |-> "", t |-> n.t, ci |-> {}, fs |-> ""]
             j == PeekAnyFrom(env, C.st.raw, m)
         IN IF Matches(env.toks[j], m)
            THEN R("ok", FastForward(env, C.st, j), <<[s |-> env.toks[j].v]>>, TRUE, C.pend, C.log, C.nid)
@@ -221,6 +229,7 @@ CanonField(env, log, id, p, fld) ==
       nodeStr(v) == IF "node" \in DOMAIN v THEN CanonInst(env, log, v.node) ELSE "?"
   IN CASE kind = "string" -> Q(JoinSeq([i \in 1..Len(ws) |-> JoinStr(ws[i].vals, 1)], 1, ""))
        [] kind = "strings" -> LET fv == FlatVals(ws, 1) IN "[" \o JoinSeq([j \in 1..Len(fv) |-> Q(fv[j].s)], 1, ",") \o "]"
+       [] IsNumSlice(kind) -> (LET fv == FlatVals(ws, 1) IN "[" \o JoinSeq([j \in 1..Len(fv) |-> env.g.conv[ElemKind(kind)][fv[j].s]], 1, ",") \o "]")
        [] IsNum(kind) -> (LET nz == SelectSeq(ws, LAMBDA w : Len(w.vals) > 0) IN
                           IF Len(nz) = 0 THEN "0" ELSE env.g.conv[kind][JoinVals(nz[Len(nz)].vals, 1)])
        [] kind = "bool" -> IF \E i \in 1..Len(ws) : Len(ws[i].vals) > 0 THEN "T" ELSE "F"
